@@ -35,7 +35,14 @@ impl SwiftField for Field75 {
         // Parse up to 6 lines of 35 characters each
         for line in input.lines() {
             if information.len() >= 6 {
-                break;
+                return Err(ParseError::InvalidFormat {
+                    message: "Field75 cannot have more than 6 lines".to_string(),
+                });
+            }
+            if line.is_empty() {
+                return Err(ParseError::InvalidFormat {
+                    message: "Field75 cannot contain an empty line".to_string(),
+                });
             }
 
             if line.len() > 35 {
